@@ -1,5 +1,6 @@
 """C15 - the encrypted transport delivers the exact message sequence or disconnects (structural part)."""
 from engine import *
+import linforms
 import provenance
 import guards
 import arith
@@ -246,8 +247,12 @@ def r15d(F):
 	if not cb:
 		out.append(Result('15.d', False, 'anchor:aead-decrypt', 'decrypt_in_place_with_ad no longer calls the AEAD decrypt', where=F.where(dip.name)))
 	else:
-		ds = call_decisions(dip, cb, 'result')
-		out += P4_guarded(F, '15.d', dip, set(ok_return_blocks(dip)), ds, True, 'AEAD tag verified', key='mac@in-place')
+		if not ok_return_blocks(dip) and any(c[0] == 'call' and (c[1] or '').endswith('Result::map_err') for b, s, c in ret_assignments(dip)):
+			# `chacha.decrypt(..).map_err(..)` as the function's value: the verdict is returned, there is no Ok that could bypass it (same form as decrypt_with_ad)
+			out.append(Result('15.d', True, 'ok:mac@in-place', 'decrypt_in_place_with_ad returns the AEAD verdict (map_err of decrypt); it constructs no Ok of its own', 1, where=F.where(dip.name)))
+		else:
+			ds = call_decisions(dip, cb, 'result')
+			out += P4_guarded(F, '15.d', dip, set(ok_return_blocks(dip)), ds, True, 'AEAD tag verified', key='mac@in-place')
 	dwa = F.func(ENC + 'decrypt_with_ad')
 	ra = ret_assignments(dwa)
 	okm = any(c[0] == 'call' and (c[1] or '').endswith('Result::map_err') for b, s, c in ra) and bool(dwa.call_blocks(lambda p: p.endswith('::decrypt')))
@@ -550,3 +555,4 @@ def r15n(F):
 RULES.append(('15.n', 'a fresh ephemeral key per connection: get_ephemeral_key hashes the engine into which peer_counter.next() was fed (data-flow rule)', r15n))
 RULES.append(('15.W', 'field assignments: every reviewed (function, Type.field) direct assignment is still made - state that a path no longer updates, or updates only conditionally (get_or_insert for an overwrite); generalises NN.R (rules/writes.py)', lambda F: writes.for_property(F, 'C15', '15.W')))
 RULES.append(('15.N', 'arithmetic census: per reviewed function the set of operation kinds (group: add/sub, mul, div, rem, shift, bit, min, max, div_ceil ...; flavour: plain / checked / saturating / wrapping) keeps its kinds: no reviewed function lost or gained a kind of arithmetic altogether - a rounding direction (`/` for div_ceil), saturating for checked, min for max (rules/arith.py; counts and value arithmetic itself are not judged)', lambda F: arith.for_property(F, 'C15', '15.N')))
+RULES.append(('15.K', 'constant census of linear forms: every comparison (normalised to sum >= K over name-free atoms, a comparison and its negation being one form) and every maximal arithmetic expression of a reviewed function keeps its coefficients and its constant - a dropped or added `+ 1` / `- 1`, `<` for `<=` inside a computed bound, a scale factor applied twice or not at all, swapped operands of a comparison (rules/linforms.py; shapes that appear or disappear are not judged, the guard / arithmetic censuses judge those)', lambda F: linforms.for_property(F, 'C15', '15.K')))
